@@ -557,7 +557,7 @@ impl Scenario for C08 {
       nontrivial: spurious > 0 || overshoots > 0 || jumps > 0 || multi > 0 || !case.prompt,
       sim_ns: sim,
       steps: case.acts.len() as u64,
-      faults: vec![("spurious_poll", spurious), ("clock_jump_past_a_deadline_by_a_period_or_more", overshoots), ("late_executor(scripted clock)", (!case.prompt) as u64)],
+      faults: vec![("spurious_poll", spurious), ("clock_jump_past_a_deadline_by_a_period_or_more", overshoots), ("late_executor(scripted clock)", (!case.prompt) as u64), ("busy_subscriber(every callback takes time)", (case.busy_100us > 0 && case.busy_only_at == 0) as u64), ("one_slow_delivery(longer than a period)", (case.busy_only_at > 0) as u64), ("far_ahead_timer(2^32 us/ms/s, 2^64 ns)", matches!(case.src, Src::TimerFar { .. }) as u64)],
       reach: vec![("info:task_alive_after_source_terminated", task_left)],
       resolved: None,
       sample,
